@@ -192,8 +192,10 @@ def check_forms_model(ctx, rng):
 
 
 def run(ctx):
-    scale = 0.5
+    scale = 0.7
     for tag, nodes, root, big in D.cases(ctx, scale=scale):
+        if tag == 'cells65536-tree' and not ctx.thorough:
+            continue                      # 2-byte/3-byte size boundary: thorough tier here (C04 covers it in the quick tier)
         check_case(ctx, tag, nodes, root, big or len(nodes) > 400)
         ctx.count('dags')
     nodes = D.connected_dag(ctx.rng, 30)
